@@ -34,7 +34,7 @@ use crate::report::{Acc, Check, Tier};
 use crate::util::{self, guard, Guard};
 use crate::world;
 
-pub const SWEEPS: [&str; 6] = ["short-bytes", "fixture-corruption", "json-node-mutation", "adversarial-rules", "adversarial-verify", "adversarial-entries"];
+pub const SWEEPS: [&str; 7] = ["short-bytes", "fixture-corruption", "json-node-mutation", "adversarial-rules", "adversarial-verify", "adversarial-entries", "unwritable-stdio"];
 
 // --------------------------------------------------------------- decoders
 
@@ -852,6 +852,54 @@ fn sweep_adversarial_entries(cx: &mut Ctx, dir: &Path) {
     let _ = std::env::set_current_dir("/");
 }
 
+/// Every decoder on its own valid fixtures (and a few broken ones) while standard output and
+/// standard error cannot be written (both point at /dev/full): a library that prints on a parse
+/// path panics there ("failed printing to stdout").
+fn sweep_unwritable_stdio(cx: &mut Ctx) {
+    let decs = decoders();
+    let fx = fixtures();
+    let (saved_out, saved_err, full) = unsafe {
+        let full = libc::open(b"/dev/full\0".as_ptr() as *const libc::c_char, libc::O_WRONLY);
+        (libc::dup(1), libc::dup(2), full)
+    };
+    if saved_out < 0 || saved_err < 0 || full < 0 {
+        cx.acc.note("unwritable-stdio sweep skipped: /dev/full not available");
+        return;
+    }
+    for (fname, bytes, targets) in &fx {
+        let my: Vec<&Entry> = decs.iter().filter(|(n, _)| targets.iter().any(|t| n.starts_with(t))).collect();
+        let mut inputs = vec![bytes.clone(), bytes[..bytes.len() / 2].to_vec(), b"{}".to_vec()];
+        inputs.dedup();
+        for input in &inputs {
+            for (name, f) in &my {
+                cx.case(
+                    name,
+                    || {
+                        unsafe {
+                            libc::dup2(full, 1);
+                            libc::dup2(full, 2);
+                        }
+                        let r = std::panic::catch_unwind(std::panic::AssertUnwindSafe(|| f(input)));
+                        unsafe {
+                            libc::dup2(saved_out, 1);
+                            libc::dup2(saved_err, 2);
+                        }
+                        if let Err(e) = r {
+                            std::panic::resume_unwind(e);
+                        }
+                    },
+                    || json!({"sweep": "unwritable-stdio", "fixture": fname, "input_hex": util::hex(&input[..input.len().min(400)]), "stdout_and_stderr": "/dev/full"}),
+                );
+            }
+        }
+    }
+    unsafe {
+        libc::close(full);
+        libc::close(saved_out);
+        libc::close(saved_err);
+    }
+}
+
 // ---------------------------------------------------- shard entry (child)
 
 pub fn shard_main(args: &[String]) -> ! {
@@ -881,6 +929,7 @@ pub fn shard_main(args: &[String]) -> ! {
             "adversarial-rules" => sweep_adversarial_rules(&mut cx),
             "adversarial-verify" => sweep_adversarial_verify(&mut cx, &dir),
             "adversarial-entries" => sweep_adversarial_entries(&mut cx, &dir),
+            "unwritable-stdio" => sweep_unwritable_stdio(&mut cx),
             _ => {}
         }
         let total = cx.idx;
@@ -1001,7 +1050,7 @@ pub fn run(tier: Tier) -> i32 {
     acc.sample(|| json!({"sweep": "adversarial-verify", "layout": "step \"[\" threshold 4294967295", "link_file": "keyid with a multi-byte character across byte 8"}));
     c.acc = acc;
     c.rule = format!(
-        "sweeps: (1) every byte string of length <= {} over {{ }} [ ] \" : , 0 - a \\ 0xff into each of {} entry points; (2) every truncation and, at every {}offset, delete / 0x00 / 0x80 / 0xff / low-bit flip / insert 0x30, and every decimal number replaced by 11 boundary spellings, of {} fixtures into the matching entry points; (3) every node of every JSON fixture replaced by each of {} values, deleted, duplicated; (4) hostile artifact paths x hostile patterns x all rule kinds through the rule engine; (5) hostile layouts x hostile link files through in_toto_verify in a private cwd; (6) link-directory entries that are not regular UTF-8 files (0xff bytes, BOM, UTF-16, 1 MiB of brackets, a directory / dangling / self-referential symlink / unreadable file named like a link file), delegation trees that are self-similar (sub-directory symlinked to its parent; 8 / 64 / 300 real levels) or hostile below the first level, and record_artifact / record_artifacts on paths that name no readable file (the builder methods add_material / add_product take an operator-chosen path, return no Result and are outside this property). Each case also exercises the follow-up calls (verify, prefix, to_bytes, sign). distinct_nontrivial = cases run (each is a distinct input)",
+        "sweeps: (1) every byte string of length <= {} over {{ }} [ ] \" : , 0 - a \\ 0xff into each of {} entry points; (2) every truncation and, at every {}offset, delete / 0x00 / 0x80 / 0xff / low-bit flip / insert 0x30, and every decimal number replaced by 11 boundary spellings, of {} fixtures into the matching entry points; (3) every node of every JSON fixture replaced by each of {} values, deleted, duplicated; (4) hostile artifact paths x hostile patterns x all rule kinds through the rule engine; (5) hostile layouts x hostile link files through in_toto_verify in a private cwd; (7) every decoder on its fixtures while standard output and standard error point at /dev/full; (6) link-directory entries that are not regular UTF-8 files (0xff bytes, BOM, UTF-16, 1 MiB of brackets, a directory / dangling / self-referential symlink / unreadable file named like a link file), delegation trees that are self-similar (sub-directory symlinked to its parent; 8 / 64 / 300 real levels) or hostile below the first level, and record_artifact / record_artifacts on paths that name no readable file (the builder methods add_material / add_product take an operator-chosen path, return no Result and are outside this property). Each case also exercises the follow-up calls (verify, prefix, to_bytes, sign). distinct_nontrivial = cases run (each is a distinct input)",
         if thorough { 4 } else { 3 },
         decoders().len(),
         if thorough { "" } else { "(strided) " },
